@@ -78,8 +78,8 @@ class BaseModel(SolverMixin, ModelInterface):
             **initial_values,
         )
 
-        self.add_attribute('endogenous', self.ENDOGENOUS)
-        self.add_attribute('check', self.CHECK)
+        self.add_attribute('endogenous', list(self.ENDOGENOUS))
+        self.add_attribute('check', list(self.CHECK))
 
         self.add_attribute('engine', engine)
 
